@@ -342,3 +342,37 @@ def packforward(facts: CppFacts):
     res.samples = [f"{res.instances} generic array parameters forward {pack}..."]
     res.analysed = [ARR]
     return res
+
+
+def elemloops(facts: CppFacts):
+    """R-ELEMLOOP (C20/C01/C06): every loop of the runtime that walks the elements of an array view
+    (`... < ElementCount()` / `< n` with n = ElementCount()) starts at 0, stops below the count and advances by one.
+    A stride in units of bytes (`i += kElementSize`) or a start at 1 visits only some elements: Equals(), Ok() and the
+    text writer then ignore the others."""
+    res = RuleResult("R-ELEMLOOP")
+    pat = re.compile(r"for\s*\(\s*([^;]*?);\s*([^;]*?);\s*([^)]*?)\)\s*\{", re.S)
+    for m in facts.methods + facts.functions:
+        body = re.sub(r"//[^\n]*", "", m.body)
+        for init, cond, step in pat.findall(body):
+            bound_ok = "ElementCount" in cond or ("ElementCount" in init and re.search(r"<\s*n\b", cond))
+            if not bound_ok:
+                continue
+            res.instances += 1
+            vm = re.search(r"(\w+)\s*=\s*0\b", init)
+            var = vm.group(1) if vm else None
+            short = m.cls.rsplit("::", 1)[-1] if getattr(m, "cls", "") else ""
+            where = f"{short}::{m.name}" if short else m.name
+            if var is None:
+                res.add(f"{m.file}|{where}|start", f"{where}: element loop `for ({init.strip()}; ...)` does not start at element 0", m.file, m.line, where)
+                continue
+            if not re.fullmatch(rf"\s*(\+\+\s*{var}|{var}\s*\+\+|{var}\s*\+=\s*1)\s*", step):
+                res.add(f"{m.file}|{where}|stride", f"{where}: element loop advances with `{step.strip()}`; elements are numbered 0..count-1, so "
+                        "any other stride skips elements (a stride of kElementSize compares only every kElementSize-th element)",
+                        m.file, m.line, where)
+            if not re.search(rf"\b{var}\s*<\s*", cond):
+                res.add(f"{m.file}|{where}|bound", f"{where}: element loop condition `{cond.strip()}` is not `{var} < count`", m.file, m.line, where)
+    if res.instances < 5:
+        raise AnalysisError(f"only {res.instances} element loops found")
+    res.samples = [f"{res.instances} element loops: start 0, `<` count, unit stride"]
+    res.analysed = ["runtime/cpp/emboss_array_view.h", "runtime/cpp/emboss_text_util.h"]
+    return res
